@@ -9,98 +9,58 @@ open CC CC.Spec
 /-- `rfl`, or `trivial` when `simp only` already reduced the conjunct to `True` -/
 local macro "tr" : term => `(by first | rfl | trivial)
 
-/-! ## ledger primitives -/
-theorem alloc_libc (m : Mem) : m.alloc.2.libc = m.libc := by unfold Mem.alloc; split <;> rfl
-theorem free_libc (m : Mem) : m.free.libc = m.libc := by unfold Mem.free; split <;> rfl
+/-! ## which allocator calls a successful constructor / builder made -/
+
+theorem new_alloc_ok (confCap : Nat) (t : Triple) (m : Mem) (h : (Deque.new confCap t m).1 = .ok) :
+    (Deque.new confCap t m).2.2 = ((m.allocT t).2.allocT t).2 ∧ (m.allocT t).1 = true ∧
+    ((m.allocT t).2.allocT t).1 = true := by
+  rcases new_spec confCap t m with ⟨_, _, _, _, _, _, _, _, n8, n9⟩ | ⟨n1, _⟩
+  · exact ⟨by simp [Deque.new, n8, n9], n8, n9⟩
+  · rw [n1] at h; exact absurd h (by decide)
+
+theorem copy_alloc_ok (d : Deque) (cp : Option (Nat → Nat)) (m : Mem) (h : (d.copy cp m).1 = .ok) :
+    (m.allocT d.triple).1 = true ∧ ((m.allocT d.triple).2.allocT d.triple).1 = true := by
+  cases h1 : (m.allocT d.triple).1
+  · have : d.copy cp m = (.errAlloc, none, (m.allocT d.triple).2) := by simp [copy, h1]
+    rw [this] at h; simp at h
+  · cases h2 : ((m.allocT d.triple).2.allocT d.triple).1
+    · have : (d.copy cp m).1 = .errAlloc := by simp [copy, h1, h2]
+      rw [this] at h; simp at h
+    · exact ⟨rfl, rfl⟩
+
+theorem filter_alloc_ok (d : Deque) (pred : Nat → Bool) (m : Mem) (hi : d.Inv) (h : (d.filter pred m).1 = .ok) :
+    (m.allocT d.triple).1 = true ∧ ((m.allocT d.triple).2.allocT d.triple).1 = true := by
+  rcases filter_spec d pred m hi with ⟨_, e, _⟩ | ⟨_, _, _, _, _, _, _, _, _, _, _⟩ | ⟨_, e, _, _, _⟩
+  · rw [e] at h; simp at h
+  · cases h1 : (m.allocT d.triple).1
+    · exfalso
+      have : (Deque.new d.cap d.triple m).2.1 = none := by simp [Deque.new, h1]
+      have h0 : d.size ≠ 0 := by assumption
+      have : (d.filter pred m).1 = .errAlloc := by
+        unfold filter; rw [if_neg h0]; dsimp only; rw [this]; simp [Deque.new, h1]
+      rw [this] at h; exact absurd h (by decide)
+    · cases h2 : ((m.allocT d.triple).2.allocT d.triple).1
+      · exfalso
+        have hn : (Deque.new d.cap d.triple m).2.1 = none := by simp [Deque.new, h1, h2]
+        have h0 : d.size ≠ 0 := by assumption
+        have : (d.filter pred m).1 = .errAlloc := by
+          unfold filter; rw [if_neg h0]; dsimp only; rw [hn]; simp [Deque.new, h1, h2]
+        rw [this] at h; exact absurd h (by decide)
+      · exact ⟨rfl, rfl⟩
+  · rw [e] at h; exact absurd h (by decide)
+
 theorem free_sched (m : Mem) : m.free.sched = m.sched := by unfold Mem.free; split <;> rfl
-
-/-! ## exact ledger of the constructor and the builders -/
-
-/-- a successful constructor performed exactly two successful allocator calls -/
-theorem new_mem_ok (confCap : Nat) (m : Mem) (h : (Deque.new confCap m).1 = .ok) :
-    (Deque.new confCap m).2.2 = m.alloc.2.alloc.2 ∧ m.alloc.1 = true ∧ m.alloc.2.alloc.1 = true := by
-  cases h1 : m.alloc.1
-  · have : Deque.new confCap m = (.errAlloc, none, m.alloc.2) := by simp [Deque.new, h1]
-    rw [this] at h; simp at h
-  · cases h2 : m.alloc.2.alloc.1
-    · have : Deque.new confCap m = (.errAlloc, none, m.alloc.2.alloc.2.free) := by simp [Deque.new, h1, h2]
-      rw [this] at h; simp at h
-    · refine ⟨?_, rfl, rfl⟩
-      simp [Deque.new, h1, h2]
-
-theorem new_libc (confCap : Nat) (m : Mem) : (Deque.new confCap m).2.2.libc = m.libc := by
-  rcases new_spec confCap m with ⟨n1, _⟩ | ⟨_, _, n3, _⟩
-  · rw [(new_mem_ok confCap m n1).1, alloc_libc, alloc_libc]
-  · exact n3.2.2.1
-
-theorem destroy_libc (d : Deque) (m : Mem) : (d.destroy m).libc = m.libc := by
-  unfold destroy; rw [free_libc, free_libc]
-
-/-- a successful copy performed exactly two successful allocator calls and nothing else -/
-theorem copy_mem_ok (d : Deque) (cp : Option (Nat → Nat)) (m : Mem) (hi : d.Inv) (h : (d.copy cp m).1 = .ok) :
-    (d.copy cp m).2.2 = m.alloc.2.alloc.2 ∧ m.alloc.1 = true ∧ m.alloc.2.alloc.1 = true := by
-  have hsz := hi.2.2.2.2.2
-  cases h1 : m.alloc.1
-  · have : d.copy cp m = (.errAlloc, none, m.alloc.2) := by simp [copy, h1]
-    rw [this] at h; simp at h
-  · cases h2 : m.alloc.2.alloc.1
-    · have : d.copy cp m = (.errAlloc, none, m.alloc.2.alloc.2.free) := by simp [copy, h1, h2]
-      rw [this] at h; simp at h
-    · refine ⟨?_, rfl, rfl⟩
-      have : (d.copy cp m).2.2 = (d.copyBuffer (Buf.mk d.cap) cp m.alloc.2.alloc.2).2 := by simp [copy, h1, h2]
-      rw [this]
-      cases cp with
-      | none => exact (copyBuffer_none d _ _ hi (by simpa using hsz)).2.1
-      | some f => exact (copyBuffer_some d f _ _ hi (by simpa using hsz)).2.1
-
-theorem copy_libc (d : Deque) (cp : Option (Nat → Nat)) (m : Mem) (hi : d.Inv) :
-    (d.copy cp m).2.2.libc = m.libc := by
-  rcases copy_spec d cp m hi with ⟨n1, _⟩ | ⟨_, _, n3, _⟩
-  · rw [(copy_mem_ok d cp m hi n1).1, alloc_libc, alloc_libc]
-  · exact n3.2.2.1
-
-/-- `cc_deque_filter`: the ledger is the constructor's ledger (the result never grows while it is
-filled, because it has the source's capacity) -/
-theorem filter_mem_ok (d : Deque) (pred : Nat → Bool) (m : Mem) (hi : d.Inv) (h : (d.filter pred m).1 = .ok) :
-    (d.filter pred m).2.2 = m.alloc.2.alloc.2 ∧ m.alloc.1 = true ∧ m.alloc.2.alloc.1 = true := by
-  have h0 : d.size ≠ 0 := by
-    intro h0
-    have : d.filter pred m = (.errOutOfRange, none, m) := by unfold filter; rw [if_pos h0]
-    rw [this] at h; simp at h
-  rcases new_spec d.cap m with ⟨n1, c0, n2, n3, n4, n5, _⟩ | ⟨n1, n2, _⟩
-  · obtain ⟨k1, k2, k3⟩ := new_mem_ok d.cap m n1
-    refine ⟨?_, k2, k3⟩
-    have hsz0 : c0.size = 0 := by have := congrArg List.length n4; simpa using this
-    have hcap : c0.cap = d.cap := by rw [n5, upperPow2_of_cap d hi]
-    obtain ⟨q1, _, _, q4, _⟩ := filterLoop_spec d pred (List.range d.size) c0 (Deque.new d.cap m).2.2 hi n3
-      (by rw [hsz0, hcap]; simp; exact hi.2.2.2.2.2)
-    unfold filter
-    rw [if_neg h0]
-    dsimp only
-    rw [n2]
-    dsimp only
-    have hne : ((filterLoop d pred (List.range d.size) c0 (Deque.new d.cap m).2.2).1 != Stat.ok) = false := by
-      simp [q1]
-    simp only [hne, Bool.false_eq_true, if_false]
-    rw [q4, k1]
-  · exfalso
-    have : (d.filter pred m).1 = .errAlloc := by
-      unfold filter; rw [if_neg h0]; dsimp only; rw [n2]; exact n1
-    rw [this] at h; exact absurd h (by decide)
-
-theorem filter_libc (d : Deque) (pred : Nat → Bool) (m : Mem) (hi : d.Inv) :
-    (d.filter pred m).2.2.libc = m.libc := by
-  rcases filter_spec d pred m hi with ⟨_, h2, _⟩ | ⟨_, h2, _⟩ | ⟨_, _, _, h4, _⟩
-  · rw [h2]
-  · rw [(filter_mem_ok d pred m hi h2).1, alloc_libc, alloc_libc]
-  · exact h4.2.2.1
+theorem freeT_sched (t : Triple) (m : Mem) : (m.freeT t).sched = m.sched := by
+  cases t
+  · exact free_sched m
+  · simp only [Mem.freeT]; split <;> rfl
 
 /-! ## `iter_add` / `zip_iter_add` for every cursor position (finding D3's range included) -/
 
 /-- `cc_deque_iter_add` never breaks the invariant, never faults, keeps the ledger balanced; on any
 error the deque and the cursor are unchanged -/
 theorem iterAdd_safe (it : Iter) (d : Deque) (x : Nat) (m : Mem) (hi : d.Inv) :
-    (iterAdd it d x m).2.2.1.Inv ∧ memSame (iterAdd it d x m).2.2.2 m ∧
+    (iterAdd it d x m).2.2.1.Inv ∧ memSame d.triple (iterAdd it d x m).2.2.2 m ∧
     ((iterAdd it d x m).1 ≠ .ok → (iterAdd it d x m).2.2.1 = d ∧ (iterAdd it d x m).2.1 = it) ∧
     ((iterAdd it d x m).1 = .ok → (iterAdd it d x m).2.2.1.size = d.size + 1) := by
   unfold iterAdd
@@ -125,7 +85,7 @@ theorem iterAdd_safe (it : Iter) (d : Deque) (x : Nat) (m : Mem) (hi : d.Inv) :
 /-- `cc_deque_zip_iter_add` likewise; on any error both contents and the cursor are unchanged -/
 theorem zipAdd_safe (it : Iter) (d1 d2 : Deque) (x y : Nat) (m : Mem) (h1 : d1.Inv) (h2 : d2.Inv) :
     (zipAdd it d1 d2 x y m).2.2.1.Inv ∧ (zipAdd it d1 d2 x y m).2.2.2.1.Inv ∧
-    memSame (zipAdd it d1 d2 x y m).2.2.2.2 m ∧
+    memSame2 d1.triple d2.triple (zipAdd it d1 d2 x y m).2.2.2.2 m ∧
     ((zipAdd it d1 d2 x y m).1 ≠ .ok → (zipAdd it d1 d2 x y m).2.2.1.abs = d1.abs ∧
       (zipAdd it d1 d2 x y m).2.2.2.1.abs = d2.abs ∧ (zipAdd it d1 d2 x y m).2.1 = it) ∧
     ((zipAdd it d1 d2 x y m).1 = .errOutOfRange → (zipAdd it d1 d2 x y m).2.2.1 = d1 ∧
@@ -133,7 +93,7 @@ theorem zipAdd_safe (it : Iter) (d1 d2 : Deque) (x y : Nat) (m : Mem) (h1 : d1.I
   unfold zipAdd
   by_cases hr : it.index ≥ d1.size ∨ it.index ≥ d2.size
   · rw [if_pos hr]
-    exact ⟨h1, h2, memSame_refl m, fun _ => ⟨rfl, rfl, rfl⟩, fun _ => ⟨rfl, rfl⟩⟩
+    exact ⟨h1, h2, memSame2_refl _ _ m, fun _ => ⟨rfl, rfl, rfl⟩, fun _ => ⟨rfl, rfl⟩⟩
   rw [if_neg hr]
   dsimp only
   have fold1 : (if d1.cap = d1.size then d1.expandCapacity m else (Stat.ok, d1, m)) = growIfFull d1 m := rfl
@@ -150,14 +110,17 @@ theorem zipAdd_safe (it : Iter) (d1 d2 : Deque) (x y : Nat) (m : Mem) (h1 : d1.I
       obtain ⟨p1, p2, _, _⟩ := addAt_inv (growIfFull d1 m).2.1 x it.index (growIfFull d2 (growIfFull d1 m).2.2).2.2 a2
       obtain ⟨q1, q2, _, _⟩ := addAt_inv (growIfFull d2 (growIfFull d1 m).2.2).2.1 y it.index
         ((growIfFull d1 m).2.1.addAt x it.index (growIfFull d2 (growIfFull d1 m).2.2).2.2).2.2 b2
-      exact ⟨p1, q1, memSame_trans q2 (memSame_trans p2 (memSame_trans b6 a6)),
+      rw [growIfFull_triple] at p2 q2
+      exact ⟨p1, q1, memSame2_trans (memSame2_right _ q2) (memSame2_trans (memSame2_left _ p2)
+          (memSame2_trans (memSame2_right _ b6) (memSame2_left _ a6))),
         fun h => absurd rfl h, fun h => by simp at h⟩
     · have hne2 : ((growIfFull d2 (growIfFull d1 m).2.2).1 != Stat.ok) = true := by simp [b1]
       simp only [hne2, if_true]
-      exact ⟨a2, by rw [b2]; exact h2, memSame_trans b3 a6, fun _ => ⟨a3, by rw [b2], tr⟩, fun h => by simp at h⟩
+      exact ⟨a2, by rw [b2]; exact h2, memSame2_trans (memSame2_right _ b3) (memSame2_left _ a6),
+        fun _ => ⟨a3, by rw [b2], tr⟩, fun h => by simp at h⟩
   · have hne1 : ((growIfFull d1 m).1 != Stat.ok) = true := by simp [a1]
     simp only [hne1, if_true]
-    exact ⟨by rw [a2]; exact h1, h2, a3, fun _ => ⟨by rw [a2], tr, tr⟩, fun h => by simp at h⟩
+    exact ⟨by rw [a2]; exact h1, h2, memSame2_left _ a3, fun _ => ⟨by rw [a2], tr, tr⟩, fun h => by simp at h⟩
 
 /-! ## an error status leaves the whole physical state unchanged -/
 
@@ -230,5 +193,84 @@ theorem zipReplace_error_inert (it : Iter) (d1 d2 : Deque) (x y : Nat) (m : Mem)
 theorem iterReplace_error_inert (it : Iter) (d : Deque) (x : Nat) (m : Mem) (h : (iterReplace it d x m).1 ≠ .ok) :
     iterReplace it d x m = (.errOutOfRange, none, d, m) :=
   replaceAt_error_inert d x (decIdx it.index) m h
+
+/-! ## exactly when does an allocating operation report `CC_ERR_ALLOC` -/
+
+theorem expand_fails_iff (d : Deque) (m : Mem) :
+    (d.expandCapacity m).1 ≠ .ok ↔ (d.cap = Gen.MAX_POW_TWO ∨ (m.allocT d.triple).1 = false) := by
+  by_cases hc : d.cap = Gen.MAX_POW_TWO
+  · rw [expandCapacity_max d m hc]; simp [hc]
+  · cases ha : (m.allocT d.triple).1
+    · rw [expandCapacity_refused d m hc ha]; simp
+    · rw [expandCapacity_grow d m hc ha]; simp [hc]
+
+/-- each allocating operation reports `CC_ERR_ALLOC` exactly when it has to grow (the deque is full;
+`trim`: the capacity has to change) and the allocator of the deque's triple refuses — or, for the
+insertions, the capacity limit is reached -/
+theorem errAlloc_iff (d : Deque) (m : Mem) (x i : Nat) (hi : d.Inv) :
+    ((d.addLast x m).1 = .errAlloc ↔ d.size = d.cap ∧ (d.cap = Gen.MAX_POW_TWO ∨ (m.allocT d.triple).1 = false)) ∧
+    ((d.addFirst x m).1 = .errAlloc ↔ d.size = d.cap ∧ (d.cap = Gen.MAX_POW_TWO ∨ (m.allocT d.triple).1 = false)) ∧
+    ((d.addAt x i m).1 = .errAlloc ↔
+      i < d.size ∧ d.size = d.cap ∧ (d.cap = Gen.MAX_POW_TWO ∨ (m.allocT d.triple).1 = false)) ∧
+    ((d.trimCapacity m).1 = .errAlloc ↔
+      d.cap ≠ d.size ∧ upperPow2 d.size ≠ d.cap ∧ (m.allocT d.triple).1 = false) := by
+  refine ⟨?_, ?_, ?_, ?_⟩
+  · constructor
+    · intro h
+      rcases addLast_spec d x m hi with ⟨a1, _⟩ | ⟨_, _, _, a4, a5⟩
+      · rw [a1] at h; exact absurd h (by decide)
+      · exact ⟨a4, a5.symm⟩
+    · rintro ⟨h1, h2⟩
+      rcases addLast_spec d x m hi with ⟨_, _, _, _, _, a6⟩ | ⟨a1, _⟩
+      · obtain ⟨b1, b2⟩ := a6 h1
+        rcases h2 with h2 | h2
+        · exact absurd h2 b2
+        · rw [h2] at b1; exact absurd b1 (by decide)
+      · exact a1
+  · constructor
+    · intro h
+      rcases addFirst_spec d x m hi with ⟨a1, _⟩ | ⟨_, _, _, a4, a5⟩
+      · rw [a1] at h; exact absurd h (by decide)
+      · exact ⟨a4, a5.symm⟩
+    · rintro ⟨h1, h2⟩
+      rcases addFirst_spec d x m hi with ⟨_, _, _, _, _, a6⟩ | ⟨a1, _⟩
+      · obtain ⟨b1, b2⟩ := a6 h1
+        rcases h2 with h2 | h2
+        · exact absurd h2 b2
+        · rw [h2] at b1; exact absurd b1 (by decide)
+      · exact a1
+  · obtain ⟨_, _, a3, a4⟩ := addAt_inv d x i m hi
+    constructor
+    · intro h
+      have hne : (d.addAt x i m).1 ≠ .ok := by rw [h]; decide
+      rcases (a4 hne).2 with ⟨e, _⟩ | ⟨_, h1, h2⟩
+      · rw [e] at h; exact absurd h (by decide)
+      · refine ⟨h1, h2, ?_⟩
+        have hexp : (d.expandCapacity m).1 ≠ .ok := by
+          intro hok
+          obtain ⟨e1, _, e3, e4, _⟩ := expandCapacity_ok d m hi hok
+          have hcore := (addAtCore_inv (d.expandCapacity m).2.1 x i (d.expandCapacity m).2.2 e1
+            (by rw [e3]; exact h1) (by rw [e3, e4]; have := Inv.cap_pos hi; omega)).1
+          have : (d.addAt x i m).1 = .ok := by
+            unfold addAt
+            rw [if_neg (by omega), if_pos h2.symm]
+            have hb : ((d.expandCapacity m).1 != Stat.ok) = false := by simp [hok]
+            simp only [hb, Bool.false_eq_true, if_false]
+            exact hcore
+          exact hne this
+        exact (expand_fails_iff d m).mp hexp
+    · rintro ⟨h1, h2, h3⟩
+      have hexp := (expand_fails_iff d m).mpr h3
+      unfold addAt
+      rw [if_neg (by omega), if_pos h2.symm]
+      have hb : ((d.expandCapacity m).1 != Stat.ok) = true := by simp [hexp]
+      simp only [hb, if_true]
+  · constructor
+    · intro h
+      rcases trimCapacity_spec d m hi with ⟨a1, _⟩ | ⟨_, _, _, a4, a5⟩
+      · rw [a1] at h; exact absurd h (by decide)
+      · exact ⟨fun hf => a5 (upperPow2_of_full d hi hf), a5, a4⟩
+    · rintro ⟨h1, h2, h3⟩
+      simp [trimCapacity, h1, h2, h3]
 
 end CC.Deque
